@@ -88,6 +88,13 @@ class Effects:
             return (root, hops[:-1] + (_join(hops[-1], n["f"]),))
         if k == "un" and n["op"] == "deref":
             return self.ptr(f, n["a"][0], depth + 1)
+        if k == "index":
+            # an element of the array / buffer the base designates: "[]" marks bytes stored into that object
+            pv = self.ptr(f, n["a"][0], depth + 1)
+            if pv is None or pv == "local":
+                return pv
+            root, hops = pv
+            return (root, hops[:-1] + (_join(hops[-1], "[]"),))
         return None
 
     def ptr(self, f, n, depth=0):
@@ -114,6 +121,13 @@ class Effects:
             return (o[0], o[1] + ("",))
         if k == "un" and n["op"] == "addr":
             return self.obj(f, n["a"][0], depth + 1)
+        if k == "bin" and n["op"] in ("+", "-"):
+            # pointer arithmetic stays inside the object the pointer operand designates
+            for side in (0, 1) if n["op"] == "+" else (0,):
+                x = f.d(n["a"][side])
+                if x is not None and (f.ty(x).get("ptr") or f.ty(x).get("arr") is not None):
+                    return self.ptr(f, x, depth + 1)
+            return None
         if k == "member" or (k == "un" and n["op"] == "deref"):
             o = self.obj(f, n, depth + 1)
             if o is None or o == "local":
@@ -240,6 +254,13 @@ class Effects:
                 it = self._item(self.ptr(f, a), rp[0], "*", None)
                 if it is not None:
                     out.add(it)
+            else:
+                pv = self.ptr(f, a)
+                if pv is None:
+                    out.add(("ty", "unsigned char"))  # raw bytes written somewhere
+                elif pv != "local":
+                    root, hops = pv
+                    out.add((root[0], root[1], tuple(hops[:-1]) + (_join(hops[-1], "[]"),), None, None, "unsigned char"))
             return out
         g = self.P.fns.get(name)
         if g is None or not g.blocks:
@@ -254,6 +275,36 @@ class Effects:
         if eg is None:
             return None
         return self._translate(f, c, eg)
+
+    def callee_items(self, f, c):
+        """callee-relative effect items of one call site (for a caller that applies them to its own state), or None"""
+        name = c.get("callee")
+        if name is None:
+            return frozenset() if self.is_log_call(f, c) else None
+        if name in NOEFFECT:
+            return frozenset()
+        if name in KNOWN:
+            return KNOWN[name]
+        g = self.P.fns.get(name)
+        if g is not None and g.blocks:
+            return self.of(name)
+        out = set()
+        if name in MEMW:
+            rp = self._recptr(f, c["a"][MEMW[name]])
+            out.add(("p", MEMW[name], ("",), rp[0], "*", None) if rp else ("ty", "unsigned char"))
+            return frozenset(out)
+        for j, a in enumerate(c["a"]):
+            x = f.d(a)
+            t = f.ty(x) if x is not None else {}
+            if not t.get("ptr") or t.get("fnptr"):
+                continue
+            rp = self._recptr(f, a)
+            if rp is not None:
+                if not rp[1]:
+                    out.add(("p", j, ("",), rp[0], "*", None))
+            elif not t.get("s", "").startswith("const ") and not (x["k"] == "decay" and (f.d(x["a"][0]) or {}).get("k") == "str"):
+                out.add(("ty", (t.get("s") or "").replace("*", "").strip() or None))
+        return frozenset(out)
 
     def _translate(self, f, c, eg):
         out = set()
